@@ -31,7 +31,8 @@ FLOORS = {'extractions': 300, 'focus_evaluations': 1000, 'depth2_focus': 50,
           'derived_originals': 100, 'frozen_formula_models': 50,
           'wide_range_evaluations': 40, 'changes_before_extraction': 100,
           'extractions_before_build_code': 30,
-          'chained_extraction_evaluations': 40}
+          'chained_extraction_evaluations': 40,
+          'one_shot_focus_iterables': 50}
 ANCHOR_FUNCS = {'xlcalculator/model.py': ['ModelCompiler.extract']}
 TIMEOUT = {'quick': 600, 'thorough': 3000}
 
@@ -110,6 +111,96 @@ def run_wide(ctx):
                 break
 
 
+def run_long_formula(ctx):
+    """a focused formula with hundreds of operands (well below Excel's 8192
+    characters): extraction copies cells, it must not depend on how deep the
+    formula's syntax tree is"""
+    from xlcalculator import Evaluator, ModelCompiler
+    for n_terms in (150, 300, 600):
+        cells = {f'Sheet1!A{i}': i for i in range(1, n_terms + 1)}
+        cells['Sheet1!B1'] = '=' + '+'.join(f'A{i}'
+                                            for i in range(1, n_terms + 1))
+        cells['Sheet1!B2'] = '=B1*2'
+        ctx.event('extractions')
+        ctx.event('long_formula_extractions')
+        ctx.case(('long-formula', n_terms))
+        try:
+            original = subject.compile_dict(cells)
+            extracted = ModelCompiler.extract(original, ['Sheet1!B2'])
+            ev_o, ev_x = Evaluator(original), Evaluator(extracted)
+            for step in range(2):
+                if step:
+                    ev_o.set_cell_value('Sheet1!A7', 1007)
+                    ev_x.set_cell_value('Sheet1!A7', 1007)
+                want = ('value', ('num', float(
+                    n_terms * (n_terms + 1) + (2000 if step else 0))))
+                go = subject.outcome_of(lambda: ev_o.evaluate('Sheet1!B2'))
+                gx = subject.outcome_of(lambda: ev_x.evaluate('Sheet1!B2'))
+                ctx.event('focus_evaluations')
+                if gx != go or go != want:
+                    ctx.fail(f'focus Sheet1!B2 over a formula of {n_terms} '
+                             f'operands: extracted -> {str(gx)[:160]}, '
+                             f'original -> {str(go)[:160]}, reference '
+                             f'{want[1]}', {'operands': n_terms,
+                                            'extracted': str(gx)[:300],
+                                            'original': str(go)[:300]},
+                             monitor='same-values', group='long-formula')
+                    break
+        except RecursionError as e:
+            ctx.fail(f'extract of a model holding a formula of {n_terms} '
+                     f'operands raised RecursionError',
+                     {'operands': n_terms, 'error': str(e)[:100]},
+                     monitor='extract-raises', group='long-formula-raises')
+
+
+def run_sparse(ctx):
+    """an oversized, sparse column range: entries, a long run of empty cells,
+    more entries (constants and formulas).  Whatever the full model makes of
+    the gap, the extract computes the same, also after changes behind it"""
+    from xlcalculator import Evaluator, ModelCompiler
+    rng = ctx.rng
+    for gap in (60, 101, 121, 150):
+        cells = {'Ledger!D1': 3}
+        for r in range(1, 6):
+            cells[f'Ledger!B{r}'] = r
+        start = 6 + gap
+        for r in range(start, start + 4):
+            cells[f'Ledger!B{r}'] = 100 + r if r % 2 else '=Ledger!D1*10'
+        last = start + 10
+        cells['Calc!A1'] = f'=SUM(Ledger!B1:B{last})'
+        cells['Calc!A2'] = f'=MAX(Ledger!B1:B{last})+Calc!A1'
+        try:
+            original = subject.compile_dict(cells, default_sheet='Calc')
+            extracted = ModelCompiler.extract(original, ['Calc!A2'])
+        except Exception as e:  # noqa
+            ctx.fail(f'extract over a sparse range (gap {gap}) raised {e!r}',
+                     {'cells': cells}, monitor='extract-raises',
+                     group='sparse-raises')
+            continue
+        ev_o, ev_x = Evaluator(original), Evaluator(extracted)
+        for step in range(3):
+            if step == 1:
+                for e in (ev_o, ev_x):
+                    e.set_cell_value('Ledger!D1', 9)
+            if step == 2:
+                for e in (ev_o, ev_x):
+                    e.set_cell_value(f'Ledger!B{start}', 5000)
+            go = subject.outcome_of(lambda: ev_o.evaluate('Calc!A2'))
+            gx = subject.outcome_of(lambda: ev_x.evaluate('Calc!A2'))
+            ctx.event('focus_evaluations')
+            ctx.event('sparse_range_evaluations')
+            ctx.case(('sparse', gap, step))
+            if gx != go:
+                ctx.fail(f'focus Calc!A2 over Ledger!B1:B{last} (entries, '
+                         f'{gap} empty cells, entries; step {step}): '
+                         f'extracted -> {gx}, original -> {go}',
+                         {'cells': cells, 'gap': gap, 'extracted': gx,
+                          'original': go,
+                          'extracted_cells': len(extracted.cells)},
+                         monitor='same-values', group=f'sparse:{gap}')
+                break
+
+
 def run_chained(ctx):
     """an extract of an extract, with the named inputs re-assigned (by address
     and by name) between the two extractions"""
@@ -181,6 +272,10 @@ def run(ctx):
     rng = ctx.rng
     if ctx.shard in (1, 5, 9, 13) or ctx.tier == 'thorough':
         run_chained(ctx)
+    if ctx.shard in (2, 6) or ctx.tier == 'thorough':
+        run_long_formula(ctx)
+    if ctx.shard in (3, 7) or ctx.tier == 'thorough':
+        run_sparse(ctx)
     if ctx.shard in (0, 4, 8, 12) or ctx.tier == 'thorough':
         run_wide(ctx)
     thorough = ctx.tier == 'thorough'
@@ -350,7 +445,17 @@ def run(ctx):
             before = snapshot(original)
             ctx.event('extractions')
             try:
-                extracted = ModelCompiler.extract(original, list(focus_addrs))
+                # the focus may be any iterable of addresses and names
+                form = rng.choice(['list', 'list', 'tuple', 'generator',
+                                   'iterator', 'dict keys'])
+                fa = list(focus_addrs)
+                focus_arg = {'list': fa, 'tuple': tuple(fa),
+                             'generator': (x for x in fa),
+                             'iterator': iter(fa),
+                             'dict keys': dict.fromkeys(fa).keys()}[form]
+                if form in ('generator', 'iterator'):
+                    ctx.event('one_shot_focus_iterables')
+                extracted = ModelCompiler.extract(original, focus_arg)
             except Exception as e:  # noqa
                 ctx.fail(f'extract(focus={focus_addrs}) raised '
                          f'{type(e).__name__}: {str(e)[:200]} '
@@ -460,7 +565,8 @@ def run(ctx):
                     if gx != go or (want is not None and go != want):
                         bad = True
                         ctx.fail(
-                            f'focus {f}: extracted model -> {gx}, original '
+                            f'focus {f} (focus given as {form}): extracted '
+                            f'model -> {gx}, original '
                             f'-> {go}, reference {want} (focus set '
                             f'{focus_addrs}, changes before extraction '
                             f'{[(build.addr(k_), v_) for k_, v_ in pre]}, '
